@@ -70,6 +70,7 @@ type C05Monitor struct {
 	fees                        map[string]math.Int
 	bondedShort, notBondedShort bool
 	invBroken                   map[string]bool
+	entries                     map[string]int // "e"/"f"+hash -> number of origins in the escrow / fee record
 }
 
 func NewC05Monitor(st *Stats) *C05Monitor { return &C05Monitor{st: st} }
@@ -97,15 +98,37 @@ func layerMsg(tx sdk.Tx) (string, bool) {
 func (m *C05Monitor) records(c *Chain, ctx sdk.Context) (map[string]bool, map[string]math.Int) {
 	esc := map[string]bool{}
 	fees := map[string]math.Int{}
+	m.entries = map[string]int{}
 	_ = c.App.ReporterKeeper.DisputedDelegationAmounts.Walk(ctx, nil, func(k []byte, v reportertypes.DelegationsAmounts) (bool, error) {
 		esc[string(k)] = true
+		m.entries["e"+string(k)] = len(v.TokenOrigins)
 		return false, nil
 	})
 	_ = c.App.ReporterKeeper.FeePaidFromStake.Walk(ctx, nil, func(k []byte, v reportertypes.DelegationsAmounts) (bool, error) {
 		fees[string(k)] = v.Total
+		m.entries["f"+string(k)] = len(v.TokenOrigins)
 		return false, nil
 	})
 	return esc, fees
+}
+
+// returnedEntries: how many recorded (selector, validator, amount) entries the records that existed before hold; the
+// statement allows one unit per returned entry to stay in the pool, and one delegation can be fed by several entries
+func (m *C05Monitor) returnedEntries(c *Chain, ctx sdk.Context) int {
+	before := m.entries
+	n := 0
+	for k, cnt := range before {
+		var has bool
+		if k[0] == 'e' {
+			has, _ = c.App.ReporterKeeper.DisputedDelegationAmounts.Has(ctx, []byte(k[1:]))
+		} else {
+			has, _ = c.App.ReporterKeeper.FeePaidFromStake.Has(ctx, []byte(k[1:]))
+		}
+		if !has {
+			n += cnt // the record was consumed: its entries were returned
+		}
+	}
+	return n
 }
 
 func (m *C05Monitor) invariants(c *Chain, ctx sdk.Context, where string, s StakeSnap) {
@@ -153,7 +176,7 @@ func (m *C05Monitor) BeginBlockExit(c *Chain, ctx sdk.Context, err error) {
 	s := TakeStakeSnap(c, ctx, true)
 	m.invariants(c, ctx, "beginblock", s)
 	// dispute execution returns / keeps stake in BeginBlock
-	m.delta(c, "beginblock", true, m.prev, s)
+	m.deltaN(c, "beginblock", true, m.prev, s, m.returnedEntries(c, ctx))
 	m.prev = s
 	m.escrow, m.fees = m.records(c, ctx)
 }
@@ -170,6 +193,10 @@ func incCount(a, b StakeSnap) int {
 
 // delta checks that ledger and pools moved together.
 func (m *C05Monitor) delta(c *Chain, what string, layer bool, a, b StakeSnap) {
+	m.deltaN(c, what, layer, a, b, 0)
+}
+
+func (m *C05Monitor) deltaN(c *Chain, what string, layer bool, a, b StakeSnap, returned int) {
 	dPools := b.Pools().Sub(a.Pools())
 	dLedger := b.Ledger().Sub(a.Ledger())
 	diff := dPools.Sub(dLedger)
@@ -189,6 +216,9 @@ func (m *C05Monitor) delta(c *Chain, what string, layer bool, a, b StakeSnap) {
 	}
 	if diff.IsPositive() {
 		allowed := int64(incCount(a, b))
+		if int64(returned) > allowed {
+			allowed = int64(returned)
+		}
 		if !layer {
 			allowed = 0
 		}
@@ -205,7 +235,7 @@ func (m *C05Monitor) AfterTx(c *Chain, ctx sdk.Context, tx sdk.Tx, ok bool) {
 	name, layer := layerMsg(tx)
 	s := TakeStakeSnap(c, ctx, true)
 	m.invariants(c, ctx, "tx:"+name, s)
-	m.delta(c, "tx:"+name, layer, m.prev, s)
+	m.deltaN(c, "tx:"+name, layer, m.prev, s, m.returnedEntries(c, ctx))
 	// newly written escrow / fee-from-stake records must sum to what moved into the dispute account
 	esc, fees := m.records(c, ctx)
 	moved := s.Dispute.Sub(m.prev.Dispute)
